@@ -17,7 +17,9 @@ PROP = dict(
              "non-trivial = at least one bid succeeded; distinct by digest of parameters and op sequence",
         modelled=["liquidation itself (LockedVault fields and the collateral transfer are taken from the implementation at each start op)",
                   "bank keeper as a ledger over the named accounts", "ESM branch of AuctionIterator and limit-order auto bids are not driven",
-                  "lend-initiated close only as the transfer of TargetDebt to the pool module (not driven by the harness)"],
+                  "lend-initiated close only as the transfer of TargetDebt to the pool module (not driven by the harness)",
+                  "generation 1 (x/auction): price path only (Model/DutchV1.v, same arithmetic as generation 2), not driven by the harness; its bid path and close are not modelled",
+                  "numeric rounding bound of GetAmountOfOtherToken against the exact rational: evaluated by holds_C10_bid on every observed bid, not proved"],
         assumptions=["block times are whole seconds and non-decreasing", "oracle prices below 2^63", "asset Decimals and prices positive"],
     )
 
